@@ -246,6 +246,20 @@ func defaultValueForTypeRec(schemas ast.Schemas, typeDef ast.Type, importModule 
 			following[ref.String()] = struct{}{}
 
 			return defaultValueForTypeRec(schemas, referredObj.Type, importModule, nil, following)
+		} else if found && referredObj.Type.IsRef() {
+			// an alias of another object is declared as `Alias: typing.TypeAlias = 'Target'`: a string
+			// at run time, which can't be instantiated. The default is the one of what it names.
+			if _, found := following[ref.String()]; found {
+				return nil
+			}
+			following[ref.String()] = struct{}{}
+
+			aliased := referredObj.Type.DeepCopy()
+			if typeDef.Default != nil {
+				aliased.Default = typeDef.Default
+			}
+
+			return defaultValueForTypeRec(schemas, aliased, importModule, defaultsOverrides, following)
 		}
 
 		var extraDefaults []string
